@@ -1,7 +1,9 @@
 (* C01 -- set-similarity joins return every qualifying pair.  Only closing statements here. *)
-From Coq Require Import ZArith Bool List Sorted.
-From SSJ Require Import F64 PyNum FilterUtilsGen TokenOrdering Filters Prefix PositionSafe.
+From Coq Require Import ZArith Bool List Sorted String.
+From SSJ Require Import F64 PyNum FilterUtilsGen TokenOrdering Measures Filters Joins Api JoinSpec
+     Prefix PositionSafe SetBridge SetPair OverlapFacts OverlapMeasure MetaSpec ApiJoinSpec PartitionInst.
 Import ListNotations.
+Open Scope string_scope.
 Open Scope Z_scope.
 
 (* the position-filter loop of the joins counts every prefix/prefix match and never prunes a
@@ -16,3 +18,55 @@ Theorem C01_position_loop_safe :
     pos_loop p (len (XP ++ XS)) (len Y) XP YP 0 0 = Z.of_nat (hits XP YP).
 Proof. exact pos_loop_result. Qed.
 Print Assumptions C01_position_loop_safe.
+
+(* JACCARD / COSINE / DICE: for EVERY double threshold in the envelope, every duplicate-free
+   pair of token lists, every global token order `all` (any other rows of the two tables) and
+   every operator: a pair that satisfies the comparison raw and rounded survives candidate
+   generation (size window, prefix, positional bound -- arithmetic of the GENERATED formulas)
+   and verification, and is reported with its rounded score *)
+Theorem C01_pair_jcd :
+  forall m t q op all x y,
+  is_jcd m = true -> env_t t = true -> NoDup x -> NoDup y ->
+  (forall w, In w x -> In w all) -> (forall w, In w y -> In w all) ->
+  len x < size_bound -> len y < size_bound -> op_ok op -> ~ (x = [] /\ y = []) ->
+  qualifies m op (PFloat t) x y = true ->
+  ssj_pair {| fm := m; ft := PFloat t; fq := q |} op (order all x) (order all y)
+  = Some [reported_score m x y].
+Proof. exact ssj_pair_complete. Qed.
+Print Assumptions C01_pair_jcd.
+
+(* OVERLAP: overlap_join's core lists exactly the pairs whose overlap satisfies the comparison *)
+Theorem C01_overlap :
+  forall op T L R res,
+  rows_nodup L -> rows_nodup R -> lower_op op -> 1 <= T ->
+  overlap_tables_core op (PInt T) L R = Some res ->
+  forall c j s, In (c, j, s) res <->
+    exists x y, nth_error L c = Some x /\ nth_error R j = Some y /\
+      cmp_op op (PInt (overlap_sets x y)) (PInt T) = true /\ s = PInt (overlap_sets x y).
+Proof. exact overlap_join_exact. Qed.
+Print Assumptions C01_overlap.
+
+(* OVERLAP COEFFICIENT: every qualifying pair of a chunk is in the core's result *)
+Theorem C01_overlap_coefficient :
+  forall t op ae L R res c j x y,
+  rows_nodup L -> rows_nodup R -> lower_op op -> pos_threshold t ->
+  ovc_core t op ae L R = Some res -> nth_error L c = Some x -> nth_error R j = Some y ->
+  qualifies "OVERLAP_COEFFICIENT" op t x y = true ->
+  In (c, j, raw_score "OVERLAP_COEFFICIENT" x y) res.
+Proof. exact ovc_core_complete. Qed.
+Print Assumptions C01_overlap_coefficient.
+
+(* API level (Model/Api.v: dropna -> min(n_jobs, rows) -> GENERATED split_table -> per-chunk core
+   -> concat -> missing pairs), all five set-similarity joins, any other rows, any n_jobs / cpus,
+   any allow_missing / allow_empty / out_sim_score: the call succeeds and every qualifying pair
+   of present values is in the output (complete_spec of Spec/JoinSpec.v, the same boolean the
+   harness evaluates on the implementation's output) *)
+Theorem C01_api :
+  forall (c : jcase) (out : list out_row),
+  valid_join_case c -> api_join c = Some out -> complete_spec c out = true.
+Proof. intros c out Hv Ho. exact (proj1 (api_join_spec hpart_cpus_bounded c out Hv Ho)). Qed.
+Print Assumptions C01_api.
+
+Theorem C01_api_total : forall c : jcase, valid_join_case c -> exists out, api_join c = Some out.
+Proof. exact (api_join_total hpart_cpus_bounded). Qed.
+Print Assumptions C01_api_total.
